@@ -19,7 +19,7 @@ except ImportError:                     # pragma: no cover
 
 from ..core import AnalysisError, Unfoldable, norm, loc, walk_no_nested, attr_chain, call_name, func_params, kwarg
 from ..cfg import CFG
-from ..normalize import inline, local_env, expand, canon, ctext, conjuncts, branch_values, merge_outcomes, Unknown
+from ..normalize import split_callee_choice, inline, local_env, expand, canon, ctext, conjuncts, branch_values, merge_outcomes, Unknown
 from .. import flow
 
 LABELS = 'fim.slivers.capacities_labels:Labels'
@@ -57,6 +57,16 @@ def has_any(pattern):
                 return True
         return False
     return walk(sre_parse.parse(pattern))
+
+
+def _class_constant(cls, e):
+    """`self.X` / `cls.X` / `<Class>.X` where X is assigned a literal in the class body (or a base): the fixed text an
+    unset blob reads as is not caller data, whether it is written in place or named"""
+    if isinstance(e, ast.Attribute) and isinstance(e.value, ast.Name) and \
+            (e.value.id in ('self', 'cls') or e.value.id == cls.simple or any(c.simple == e.value.id for c in cls.mro())):
+        _, v = cls.find_assign(e.attr)
+        return isinstance(v, ast.Constant)
+    return False
 
 
 def run(prog, rep):
@@ -336,7 +346,7 @@ def run(prog, rep):
                                 ast.unparse(p.type) == 'AttributeError':
                             in_handler = True
                     rep.instance('R3', f'{fq}._set_fields: forgiving used at {norm(getattr(n, "_parent", n), 60)}')
-                    if not in_handler:
+                    if not in_handler and not _decides_no_store(prog, c, sf, n):
                         rep.violation('R3', loc(c.module, n), f'{fq}._set_fields', 'forgiving used outside the unknown-field handler',
                                       f'{fq}._set_fields consults `forgiving` outside the unknown-field handler: decoding '
                                       f'from text (which is forgiving) would skip or weaken validation')
@@ -411,7 +421,19 @@ def run(prog, rep):
         return names, mentions
     for table, what, kind in (('VALIDATORS', 'regex', 'regex'), ('LAMBDA_VALIDATORS', 'range', 'range')):
         names, mentions = derived({table})
-        guards = [t for t in cfg.nodes if t.kind == 'test' and t.tag == 'if' and any(isinstance(x, ast.Attribute) and x.attr == table for x in ast.walk(expand(t.ast, local_env(sf))))]
+        def resolved(t):
+            # the test with single-assignment locals expanded, plus - for a local assigned more than once (two inlined helpers
+            # that use the same name) - the value of its nearest assignment that dominates the test
+            e = expand(t.ast, local_env(sf))
+            out = [e]
+            for nm in {x.id for x in ast.walk(e) if isinstance(x, ast.Name)}:
+                defs = [d for d in cfg.nodes if d.kind == 'stmt' and isinstance(d.ast, ast.Assign) and len(d.ast.targets) == 1 and
+                        isinstance(d.ast.targets[0], ast.Name) and d.ast.targets[0].id == nm and d.id in dom.get(t.id, set())]
+                if defs:
+                    out.append(max(defs, key=lambda d: len(dom.get(d.id, ()))).ast.value)
+            return out
+        guards = [t for t in cfg.nodes if t.kind == 'test' and t.tag == 'if' and
+                  any(isinstance(x, ast.Attribute) and x.attr == table for e_ in resolved(t) for x in ast.walk(e_))]
         if kind == 'regex':
             apps = [c for c in walk_no_nested(sf) if isinstance(c, ast.Call) and isinstance(c.func, ast.Attribute) and c.func.attr in ('match', 'fullmatch', 'search')
                     and (mentions(c) or mentions(c.func.value))]
@@ -610,17 +632,27 @@ def run(prog, rep):
                               'Capacities stores the value before asserting it is a non-negative int')
 
     # Tags: constructor checks each tag before appending; from_json goes through the constructor
-    tinit = tags.methods.get('__init__')
-    appends = [n for n in ast.walk(tinit) if isinstance(n, ast.Call) and call_name(n) == 'append']
+    tinit = inline(prog, tags, tags.methods.get('__init__'))
+    tenv = local_env(tinit)
+    tcfg = CFG(tinit)
+    tdom = tcfg.dominators()
+    TAG_TESTS = {'_check', '_conforms', 'fullmatch'}
+    appends = [n for n in walk_no_nested(tinit) if isinstance(n, ast.Call) and call_name(n) == 'append' and n.args]
     for ap in appends:
-        st = ap
-        while not isinstance(st, ast.stmt):
-            st = st._parent
-        blk = st._parent.body if hasattr(st._parent, 'body') and st in st._parent.body else st._parent.orelse
-        i = blk.index(st)
-        prev_calls = [call_name(c) for s in blk[:i] for c in ast.walk(s) if isinstance(c, ast.Call)]
-        rep.instance('R3', f'Tags.__init__: {norm(ap)} preceded by {[c for c in prev_calls if c]}')
-        if '_check' not in prev_calls:
+        what = ctext(ap.args[0], tenv)
+        apn = flow.node_of(tcfg, ap)
+        guards = []
+        for n in tcfg.nodes:
+            if n.ast is None or apn is None or n.id == apn.id or n.id not in tdom.get(apn.id, set()):
+                continue
+            if n.kind == 'stmt' or (n.kind == 'test' and n.tag == 'if'):
+                for c in ast.walk(n.ast):
+                    if isinstance(c, ast.Call) and call_name(c) in TAG_TESTS and any(ctext(a, tenv) == what for a in c.args):
+                        # a test only counts when one of its arms rejects; a statement-level call raises by itself
+                        if n.kind == 'stmt' or any(isinstance(x, ast.Raise) for x in ast.walk(getattr(n.ast, '_parent', n.ast))):
+                            guards.append(call_name(c))
+        rep.instance('R3', f'Tags.__init__: {norm(ap)} ({what}) dominated by {sorted(set(guards))}')
+        if not guards:
             rep.violation('R3', loc(tags.module, ap), 'Tags.__init__', norm(ap),
                           'a tag is appended without being checked first')
     tfj = tags.methods.get('from_json')
@@ -629,7 +661,7 @@ def run(prog, rep):
                       'Tags.from_json no longer builds the value through the checking constructor')
     rep.instance('R3', 'Tags.from_json -> cls(d)')
     chk = tags.methods.get('_check')
-    ctxt = ast.unparse(chk)
+    ctxt = ast.unparse(inline(prog, tags, chk))
     if 'isinstance(tag, str)' not in ctxt or not any(isinstance(n, ast.Raise) for n in ast.walk(chk)):
         rep.violation('R3', loc(tags.module, chk), 'Tags._check', 'type/raise missing', 'Tags._check no longer rejects')
 
@@ -670,12 +702,12 @@ def run(prog, rep):
     if ji is None:
         raise AnalysisError('JSONData.__init__ vanished')
     ji0 = ji
-    ji = inline(prog, jd, ji0)
+    ji = inline(prog, jd, split_callee_choice(ji0))
     jenv = local_env(ji)
     jcfg = CFG(ji)
     jdom = jcfg.dominators()
     jstores = [n for n in jcfg.nodes if n.kind == 'stmt' and isinstance(n.ast, ast.Assign) and any(ast.unparse(t) == 'self._data' for t in n.ast.targets)
-               and not isinstance(n.ast.value, ast.Constant)]
+               and not isinstance(n.ast.value, ast.Constant) and not _class_constant(jd, n.ast.value)]
     if not jstores:
         raise AnalysisError('JSONData.__init__: no store of caller data into _data')
 
@@ -726,7 +758,8 @@ def run(prog, rep):
                           f'the size limit is checked on another value than the text that is stored ({stxt}): the limit no '
                           f'longer bounds the stored encoding')
         # validity: a text taken as is must have been parsed; an encoding produced by json.dumps is valid by construction
-        encoded = isinstance(stored, ast.Call) and call_name(stored) == 'dumps'
+        stored_x = expand(stored, jenv)
+        encoded = any(isinstance(v_, ast.Call) and call_name(v_) == 'dumps' for v_ in (stored, stored_x))
         if not encoded:
             parses = [c for c in walk_no_nested(ji) if isinstance(c, ast.Call) and call_name(c) == 'loads' and c.args and ctext(c.args[0], jenv) == stxt]
             pn = [flow.node_of(jcfg, c) for c in parses]
@@ -783,7 +816,7 @@ def check_size_tests_agree(prog, rep, rule):
     ji_ = jd_.methods.get('__init__')
     if ji_ is None:
         raise AnalysisError('JSONData.__init__ vanished')
-    ji_ = inline(prog, jd_, ji_)
+    ji_ = inline(prog, jd_, split_callee_choice(ji_))
     env_ = local_env(ji_)
     ops = []
     for t in ast.walk(ji_):
@@ -813,6 +846,20 @@ def check_size_tests_agree(prog, rep, rule):
         rep.violation(rule, loc(jd_.module, odd[0]), 'JSONData.__init__', f'size tests disagree: {norm(odd[0].test, 60)} rejects a length equal to the limit',
                       'one branch of the constructor rejects a text whose length equals MAX_SIZE while another accepts it: a value accepted '
                       'as an object and encoded to exactly MAX_SIZE characters is rejected when that encoding is decoded again')
+
+
+def _decides_no_store(prog, cls, sf, use):
+    """The test that reads `forgiving` decides nothing about a store: from it, no field store of the same iteration of the
+    per-field loop is reachable on either side (both sides leave the iteration: raise, or warn and go on to the next field).
+    That is what the unknown-field handler does, written without an exception."""
+    cfg = CFG(sf)
+    stores = [n for n in cfg.nodes if n.kind == 'stmt' and n.ast is not None and
+              any(isinstance(c, ast.Call) and call_name(c) in ('__setattr__', 'setattr') for c in walk_no_nested(n.ast))]
+    un = flow.node_of(cfg, use)
+    if un is None or un.kind != 'test' or not stores:
+        return False
+    heads = {h.id for h in cfg.nodes if h.kind == 'test' and h.tag == 'for'}
+    return not any(cfg.paths_avoiding(un, st_, heads) for st_ in stores)
 
 
 def _stmt_ancestors(node, fn):
